@@ -1,12 +1,13 @@
 #!/bin/sh
 # run every check of a tier at one seed; prints one line per property
 TIER=${1:-quick}; SEED=${2:-1}
-cd /verif
+cd "$(dirname "$0")/.." || exit 2
+T=$(mktemp -d)
 for i in 01 02 03 04 05 06 07 08 09 10 11 12 13 14 15 16 17 18 19 20; do
   s=$(date +%s.%N)
-  VERIF_SEED=$SEED ./check C$i $TIER > /tmp/krp_runall_C$i.log 2>&1
+  VERIF_SEED=$SEED ./check C$i $TIER > $T/C$i.log 2>&1
   rc=$?
   e=$(date +%s.%N)
-  printf "C%s rc=%s %.1fs %s\n" $i $rc $(echo "$e - $s" | bc) "$(grep -E '^C[0-9]+ tier' /tmp/krp_runall_C$i.log | cut -c1-140)"
-  grep -E "VIOLATION|INCONCLUSIVE" /tmp/krp_runall_C$i.log | head -5
+  printf "C%s rc=%s %.1fs %s\n" $i $rc $(echo "$e - $s" | bc) "$(grep -E '^C[0-9]+ tier' $T/C$i.log | cut -c1-140)"
+  grep -E "VIOLATION|INCONCLUSIVE" $T/C$i.log | head -5
 done
